@@ -82,6 +82,23 @@ class Ctx:
     def broke(self, name, detail):
         self.broken.append((name, detail))
 
+    def attempt(self, what, payload, f):
+        """Run one generated case. An exception that escapes the harness's own classification does not end the run: when it was
+        raised inside pacti it is reported as a violation with the case as the replay (the operation neither returned a result
+        nor raised a documented error the harness expects there); otherwise it is a failure of the machinery itself."""
+        try:
+            return f()
+        except (SystemExit, Exception) as e:  # noqa: BLE001
+            import traceback
+            tb = traceback.format_exc()
+            last = [l for l in tb.splitlines() if l.strip().startswith("File ")][-1:] or [""]
+            if "/src/pacti/" in last[0]:
+                self.violation(f"{what}:escape:{type(e).__name__}", f"an exception escaped from pacti while the harness ran a generated case: {e!r}"[:300],
+                               dict(payload() if callable(payload) else payload, traceback=tb[-800:]))
+            else:
+                self.machinery_failure(f"harness crashed on a generated case ({what}): " + tb[-1500:])
+            return None
+
     def machinery_failure(self, msg):
         self.failures.append(msg)
 
